@@ -10,10 +10,11 @@ CONSTANTS
   MaxChunk = 2
   Limits <- L_none
   TLims <- T_none
-  MaxCalls = 1
+  MaxCalls = 2
   MaxNow = 0
   ShortIO = FALSE
   DeadlineCheck = TRUE
   CloseBeforeSend = TRUE
+  ClearOnErr = TRUE
 INVARIANT NoViolation EnvOk
 CONSTRAINT Bound
